@@ -70,6 +70,19 @@ class C12(Prop):
                     res.append(("seq:unexpected-status", "call %s answered %s" % (op, st), rp))
                 elif st == 200 and op in ("data-unknown", "poll-unknown", "close-unknown", "data-malformed", "poll-malformed", "close-malformed", "open-malformed", "data-badmsg"):
                     res.append(("seq:bad-call-accepted", "call %s was answered 200" % op, rp))
+            # when the backend closes first, the polls deliver what was already received, then report the session closed
+            ops, sts = r["ops"], r["statuses"]
+            for i, op in enumerate(ops):
+                if op != "backend-send":
+                    continue
+                rest = ops[i + 1:]
+                if "backend-close" in rest:
+                    j = i + 1 + rest.index("backend-close")
+                    if not any(o in ("poll", "close", "open") for o in ops[:j]):
+                        after = ops[j + 1:]
+                        if after and after[0] == "poll" and sts[j + 1] != 200:
+                            res.append(("seq:buffered-messages-lost-at-backend-close", "backend sent a message and closed; the first poll afterwards answered %s instead of delivering the message" % sts[j + 1], rp))
+                break
             # a close must be seen by the backend
             if "close" in r["ops"] and r["statuses"][r["ops"].index("close")] == 200 and not r.get("backend_saw_end"):
                 res.append(("seq:close-not-propagated", "close answered 200 but the backend connection stayed open", rp))
